@@ -5,7 +5,8 @@
 # License: MIT License
 #######################################################################
 
-from os.path import abspath, dirname, isabs, join
+import glob
+from os.path import abspath, commonpath, dirname, isabs, join, relpath
 
 import textx.scoping as scoping
 from textx.exceptions import TextXSemanticError
@@ -351,10 +352,17 @@ class ImportURI(scoping.ModelLoader):
 
             else:
                 # globing based i/o:
-                basedir = dirname(model._tx_filename)
+                basedir = abspath(dirname(model._tx_filename))
                 filename_pattern = abspath(
                     join(basedir, self.importURI_converter(obj.importURI))
                 )
+                # Only the import text is a pattern, not the location of the
+                # importing model.
+                common = commonpath([basedir, filename_pattern])
+                if filename_pattern != common:
+                    filename_pattern = join(
+                        glob.escape(common), relpath(filename_pattern, common)
+                    )
 
                 obj._tx_loaded_models = (
                     model._tx_model_repository.load_models_using_filepattern(
